@@ -7,11 +7,11 @@ package querylog
 //
 //vx:overlay internal/querylog/zz_vx_c07k.go
 //vx:entry vxC07Status reach=selected,not-selected,unknown-status
-//vx:entry vxC07Term reach=strict-hit,strict-miss,substring-hit,substring-miss,by-host,by-name,by-clientid,by-ip
-//vx:entry vxC07Quick reach=selected,quick-dropped
+//vx:entry vxC07Term reach=strict-hit,strict-miss,substring-hit,substring-miss,by-host,by-name,by-clientid,by-ip,quick-dropped
 
 import (
 	"context"
+	"fmt"
 	"log/slog"
 	"net"
 
@@ -97,165 +97,150 @@ func vxC07NoClient(_ context.Context, _ *slog.Logger, _, _ string) *Client { ret
 
 // ---- search term -------------------------------------------------------------
 
-// vxC07FoldEq: two ASCII bytes are equal ignoring letter case (no fork).
-func vxC07FoldEq(a, b byte) bool {
-	l := a | 0x20
-	letter := vx.And('a' <= l, l <= 'z')
-	return vx.Or(a == b, vx.And(letter, a^b == 0x20))
-}
+// vxC07Sigma: one representative of every class of ASCII byte that letter-case
+// folding distinguishes: ordinary letters in both cases, the two letters with
+// a three-element folding orbit (k: Kelvin sign, s: long s), the first and
+// last letters and their neighbours '@' '[' '`' '{' (which differ from each
+// other in the case bit only, like letters), a digit and the dot.
+const vxC07Sigma = "aAkKsSzZ1.@[`{"
 
-// vxC07FoldAt: term occurs in s at position i, ignoring ASCII letter case.
-func vxC07FoldAt(s, term string, i int) bool {
-	ok := true
-	for j := 0; j < len(term); j++ {
-		ok = vx.And(ok, vxC07FoldEq(s[i+j], term[j]))
+func vxC07LowerASCII(c byte) byte {
+	if 'A' <= c && c <= 'Z' {
+		return c + 'a' - 'A'
 	}
-	return ok
-}
-
-func vxC07EqualRef(s, term string) bool {
-	if len(s) != len(term) {
-		return false
-	}
-	return vxC07FoldAt(s, term, 0)
-}
-
-func vxC07ContainsRef(s, term string) bool {
-	r := false
-	for i := 0; i+len(term) <= len(s); i++ {
-		r = vx.Or(r, vxC07FoldAt(s, term, i))
-	}
-	return r
-}
-
-func vxC07ASCII(s string, forLine bool) {
-	for i := 0; i < len(s); i++ {
-		c := s[i]
-		vx.Assume(vx.And(c >= 0x20, c < 0x7f))
-		if forLine {
-			// characters the JSON encoder escapes
-			vx.Assume(vx.And(vx.And(c != '"', c != '\\'), vx.And(vx.And(c != '<', c != '>'), c != '&')))
-		}
-	}
-}
-
-// vxC07TermCase builds one entry with a single non-empty symbolic field (the
-// client address is always present), a symbolic term and the criterion.
-type vxC07TermCase struct {
-	host, name, cid, ipStr string
-	which                  int
-	term                   string
-	strict                 bool
-	cli                    *Client
-	e                      *logEntry
-	p                      *searchParams
-}
-
-func vxC07NewTermCase(forLine bool) *vxC07TermCase {
-	maxField, maxTerm := 2, 2
-	if vx.Thorough() {
-		maxField, maxTerm = 3, 3
-	}
-	c := &vxC07TermCase{}
-	// the shortest address text there is: "::1"
-	ip := net.IP{0, 0, 0, 0, 0, 0, 0, 0, 0, 0, 0, 0, 0, 0, 0, 1}
-	c.which = vx.Choice("field", 4)
-	n := 1
-	if c.which < 3 {
-		n = 1 + vx.Choice("fieldLen", maxField)
-	}
-	switch c.which {
-	case 0:
-		c.host = vx.String("host", n)
-		vxC07ASCII(c.host, forLine)
-	case 1:
-		c.name = vx.String("name", n)
-		vxC07ASCII(c.name, false)
-	case 2:
-		c.cid = vx.String("clientID", n)
-		vxC07ASCII(c.cid, forLine)
-	default:
-		ip = net.IP{byte(1 + vx.Choice("ip", 2)), 2, 3, 4}
-	}
-	c.term = vx.String("term", 1+vx.Choice("termLen", maxTerm))
-	vxC07ASCII(c.term, false)
-	c.strict = vx.Bool("quoted")
-	c.ipStr = ip.String()
-	if c.which == 1 {
-		c.cli = &Client{Name: c.name}
-	}
-	c.e = &logEntry{QHost: c.host, ClientID: c.cid, IP: ip, client: c.cli}
-	c.p = &searchParams{searchCriteria: []searchCriterion{{criterionType: ctTerm, value: c.term, strict: c.strict}}}
 	return c
 }
 
-// vxC07Term: the meaning of a search term (substring by default, whole value
-// when quoted, letter case ignored, over host name, client name, ClientID and
-// client address).
-func vxC07Term() {
-	c := vxC07NewTermCase(false)
-	got := c.p.match(c.e)
-
-	var want bool
-	fields := []string{c.host, c.name, c.cid, c.ipStr}
-	marks := []string{"by-host", "by-name", "by-clientid", "by-ip"}
-	var hitOwn bool
-	for i, f := range fields {
-		var h bool
-		if c.strict {
-			h = vxC07EqualRef(f, c.term)
-		} else {
-			h = vxC07ContainsRef(f, c.term)
+// vxC07ContainsRef: term occurs in s (as the whole of s when whole is set),
+// ignoring ASCII letter case.
+func vxC07ContainsRef(s, term string, whole bool) bool {
+	if whole && len(s) != len(term) {
+		return false
+	}
+	for i := 0; i+len(term) <= len(s); i++ {
+		j := 0
+		for j < len(term) && vxC07LowerASCII(s[i+j]) == vxC07LowerASCII(term[j]) {
+			j++
 		}
-		want = vx.Or(want, h)
-		if i == c.which {
-			hitOwn = h
+		if j == len(term) {
+			return true
 		}
 	}
-	ks := vx.And(!c.strict, vx.Or(c.term[0] == 'k', c.term[0] == 's'))
-	if vxC07Dev {
-		vx.Assume(!ks)
-	}
-	vx.Known("C07-containsfold-lower-k-s", ks)
-	vx.Assert(got == want, "a search term selects exactly the entries whose host, client name, ClientID or address contains it (equals it when quoted), ignoring letter case")
-	if hitOwn {
-		vx.Reach(marks[c.which])
-	}
-	switch {
-	case c.strict && got:
-		vx.Reach("strict-hit")
-	case c.strict:
-		vx.Reach("strict-miss")
-	case got:
-		vx.Reach("substring-hit")
-	default:
-		vx.Reach("substring-miss")
-	}
+	return false
 }
 
-// vxC07Quick: the quick pre-match on the stored line never drops an entry that
-// the full match selects.
-func vxC07Quick() {
-	c := vxC07NewTermCase(true)
-	got := c.p.match(c.e)
-	// the line as json.Marshal frames it (field order of logEntry; CID is
-	// omitted when empty; the rule list of the result repeats "IP" further
-	// right)
-	line := `{"T":"2024-05-06T07:08:09.123456789Z","QH":"` + c.host + `","QT":"A","QC":"IN",`
-	if c.cid != "" {
-		line += `"CID":"` + c.cid + `",`
+// vxC07Strings returns all strings over vxC07Sigma of length 1..n.
+func vxC07Strings(n int) (res []string) {
+	level := []string{""}
+	for l := 1; l <= n; l++ {
+		var next []string
+		for _, p := range level {
+			for i := 0; i < len(vxC07Sigma); i++ {
+				next = append(next, p+vxC07Sigma[i:i+1])
+			}
+		}
+		res = append(res, next...)
+		level = next
 	}
-	line += `"CP":"","Upstream":"9.9.9.9:53","IP":"` + c.ipStr + `","Result":{"Rules":[{"IP":"0.0.0.0","Text":"||x^"}]},"Elapsed":7}`
-	finder := func(_ context.Context, _ *slog.Logger, clientID, addr string) *Client {
-		vx.Assert(clientID == c.cid && addr == c.ipStr, "the quick pre-match looks the client up by the stored ClientID and address")
-		return c.cli
+	return res
+}
+
+// vxC07Term: the meaning of a search term — substring by default, the whole
+// value when quoted, letter case ignored, over host name, client name,
+// ClientID and client address — and the quick pre-match on the stored line,
+// which must never drop an entry that the full match selects.
+func vxC07Term() {
+	maxField, maxTerm := 2, 2
+	if vx.Thorough() {
+		maxField = 3
 	}
-	q := c.p.quickMatch(context.Background(), slog.Default(), line, finder)
-	vx.Assert(vx.Implies(got, q), "the quick pre-match on the stored line never drops an entry the full match selects")
-	if got {
-		vx.Reach("selected")
+	which := vx.Choice("field", 4)
+	strict := vx.Choice("quoted", 2) == 1
+	var fields []string
+	if which == 3 {
+		// the client address is the field: three address forms
+		fields = []string{"1.2.3.4", "::1", "fe80::a1"}
+	} else {
+		// split the field values by their first byte over the paths
+		first := vxC07Sigma[vx.Choice("firstByte", len(vxC07Sigma)):][:1]
+		fields = []string{first}
+		for _, rest := range vxC07Strings(maxField - 1) {
+			fields = append(fields, first+rest)
+		}
 	}
-	if !q {
-		vx.Reach("quick-dropped")
+	terms := vxC07Strings(maxTerm)
+	if which == 3 {
+		terms = append(terms, "1.2.3.4", "::1", ":A1", "2.3", "FE80::a1", "1.2.3.4 ")
+	}
+	marks := []string{"by-host", "by-name", "by-clientid", "by-ip"}
+	ctx := context.Background()
+	for _, f := range fields {
+		host, name, cid, ip := "", "", "", net.IP{9, 9, 9, 9}
+		switch which {
+		case 0:
+			host = f
+		case 1:
+			name = f
+		case 2:
+			cid = f
+		default:
+			ip = net.ParseIP(f)
+		}
+		ipStr := ip.String()
+		var cli *Client
+		if which == 1 {
+			cli = &Client{Name: name}
+		}
+		e := &logEntry{QHost: host, ClientID: cid, IP: ip, client: cli}
+		// the line as json.Marshal frames it (field order of logEntry; CID is
+		// omitted when empty; the rule list of the result repeats "IP"
+		// further right)
+		line := `{"T":"2024-05-06T07:08:09.123456789Z","QH":"` + host + `","QT":"A","QC":"IN",`
+		if cid != "" {
+			line += `"CID":"` + cid + `",`
+		}
+		line += `"CP":"","Upstream":"9.9.9.9:53","IP":"` + ipStr + `","Result":{"Rules":[{"IP":"0.0.0.0","Text":"||x^"}]},"Elapsed":7}`
+		finder := func(_ context.Context, _ *slog.Logger, clientID, addr string) *Client {
+			vx.Assert(clientID == cid && addr == ipStr, "the quick pre-match looks the client up by the stored ClientID and address")
+			return cli
+		}
+		for _, term := range terms {
+			p := &searchParams{searchCriteria: []searchCriterion{{criterionType: ctTerm, value: term, strict: strict}}}
+			got := p.match(e)
+			want := false
+			for _, v := range []string{host, name, cid, ipStr} {
+				if vxC07ContainsRef(v, term, strict) {
+					want = true
+				}
+			}
+			if got != want {
+				vx.Note(fmt.Sprintf("field %s=%q term=%q quoted=%v: selected=%v", marks[which][3:], f, term, strict, got))
+				if !strict && (term[0] == 'k' || term[0] == 's') {
+					vx.Known("C07-containsfold-lower-k-s", true)
+				}
+			}
+			vx.Assert(got == want, "a search term selects exactly the entries whose host, client name, ClientID or address contains it (equals it when quoted), ignoring letter case")
+			q := p.quickMatch(ctx, slog.Default(), line, finder)
+			if got && !q {
+				vx.Note(fmt.Sprintf("field %s=%q term=%q quoted=%v: dropped by the quick pre-match", marks[which][3:], f, term, strict))
+			}
+			vx.Assert(q || !got, "the quick pre-match on the stored line never drops an entry the full match selects")
+			switch {
+			case strict && got:
+				vx.Reach("strict-hit")
+			case strict:
+				vx.Reach("strict-miss")
+			case got:
+				vx.Reach("substring-hit")
+			default:
+				vx.Reach("substring-miss")
+			}
+			if got {
+				vx.Reach(marks[which])
+			}
+			if !q {
+				vx.Reach("quick-dropped")
+			}
+		}
 	}
 }
